@@ -225,6 +225,9 @@ func (w *World) GenBurns(n int) []FctTx {
 	t := w.T
 	var out []FctTx
 	k := rapid.IntRange(0, n).Draw(t, "nburns")
+	if rapid.Bool().Draw(t, "manyBurns") {
+		k = n - k // rapid favours the low end of a range: half of the blocks get the high end instead
+	}
 	for i := 0; i < k; i++ {
 		a := w.PickActor("burner")
 		amt := uint64(rapid.IntRange(1, 5000).Draw(t, "burnAmt")) * 1e6
@@ -242,7 +245,7 @@ func (w *World) GenBurns(n int) []FctTx {
 			tx.Inputs = append(tx.Inputs, FctIO{Amount: 5, Address: b.Addr()})
 			tx.RCDs = append(tx.RCDs, b.RCD())
 			w.Tag("burn-nearmiss")
-		case 3: // an FCT output besides the EC output
+		case 3, 5: // an FCT output besides the EC output (two shares: the one near-miss that still has the burn's EC output)
 			tx.Outputs = []FctIO{{Amount: 7, Address: w.PickActor("fctOut").Addr()}}
 			w.Tag("burn-nearmiss")
 		case 4: // plain factoid transfer
